@@ -262,6 +262,16 @@ def tt_sequence(rng, tt_size, n):
         for j in range(3):
             keys.append((s + tt_size * rng.randrange(0, (2**64 - 1 - s) // tt_size)) & (2**64 - 1))
     keys += [2**64 - 1, 0, tt_size, rng.getrandbits(64)]
+    # near-aliases of one key: same slot and the same low 16 / 32 / 48 bits (a narrowed or partial key comparison
+    # would confuse them), or the same high bits (difference only just above the slot index)
+    from math import gcd
+    K = rng.getrandbits(62)
+    keys.append(K)
+    for w in (16, 32, 48):
+        D = tt_size * (1 << w) // gcd(tt_size, 1 << w)
+        if K + D < 2**64:
+            keys.append(K + D * rng.randrange(1, max(2, min(8, (2**64 - 1 - K) // D))))
+    keys += [K + tt_size, K + tt_size * rng.randrange(2, 2048)]
     def score():
         c = rng.random()
         if c < 0.35: return rng.choice([48000, -48000, 49000, -49000]) + rng.randint(-70, 70)
@@ -763,6 +773,25 @@ def check_C14(ctx):
         ctx.count('depth-3')
         if e != o:
             ctx.oracle_fail('perft-count-differs-from-rules', f'perft {fen} ; 3', {'engine': e, 'rules': o})
+    # counts beyond 2^32 (depth 6 is inside the property's range): published value, and additivity - the count at the
+    # root is the sum of the counts one ply down, each of which is below 2^32 and computed by separate requests
+    big = [('r3k2r/p1ppqpb1/bn2pnp1/3PN3/1p2P3/2N2Q1p/PPPBBPPP/R3K2R w KQkq - 0 1', 6, 8031647685)]
+    if not ctx.quick:
+        big.append(('r4rk1/1pp1qppp/p1np1n2/2b1p1B1/2B1P1b1/P1NP1N2/1PP1QPPP/R4RK1 w - - 0 10', 6, 6923051137))
+    for fen, d, published in big:
+        e = ctx.rust.ask(f'perft {fen} ; {d}')
+        ctx.evaluations += 1; ctx.count('counts-beyond-2^32')
+        if e != [str(published)]:
+            ctx.oracle_fail('perft-differs-from-published-value', f'perft {fen} ; {d}', {'engine': e, 'published': published})
+        info = legal_info(ctx, fen)
+        total = 0
+        for mv in sorted(info[0]):
+            o = ctx.model.ask(f'oracle play {fen} ; {mv}')
+            c = ctx.rust.ask(f'perft {o[1]} ; {d - 1}')
+            total += int(c[0])
+        ctx.evaluations += len(info[0])
+        if e != [str(total)]:
+            ctx.oracle_fail('perft-not-the-sum-of-its-subtrees', f'perft {fen} ; {d}', {'engine': e, 'sum_of_children_at_depth_minus_1': total})
     # thread counts: the same requests under RAYON_NUM_THREADS = 1..16 (fresh processes), repeated
     reqs = [f'perft {START_FEN} ; 4', 'perft r3k2r/p1ppqpb1/bn2pnp1/3PN3/1p2P3/2N2Q1p/PPPBBPPP/R3K2R w KQkq - 0 1 ; 3',
             'perft r3k2r/p1ppqpb1/bn2pnp1/3PN3/1p2P3/2N2Q1p/PPPBBPPP/R3K2R w KQkq - 0 1 ; 4', 'perft 8/2p5/3p4/KP5r/1R3p1k/8/4P1P1/8 w - - 0 1 ; 5']
@@ -1484,10 +1513,28 @@ def shuffle_games(ctx, n):
     return out
 
 
+def long_shuffle_games(ctx):
+    """histories of 100-250 plies of reversible moves in which the root can recreate a position that occurs only at the
+    very start of the game: out (X, Y), a long shuffle of two other pieces, X back; Y back recreates the base position"""
+    templates = [
+        # base, X out/back, Y out/back, white shuffle, black shuffle
+        ('1n5k/8/8/8/8/8/8/K1QR4 w - - 0 1', ('a1b1', 'b1a1'), ('b8a6', 'a6b8'), ('d1d2', 'd2d1'), ('h8g8', 'g8h8')),
+        ('r3k3/8/8/8/8/8/8/R3K1N1 w - - 0 1', ('g1f3', 'f3g1'), ('a8a7', 'a7a8'), ('e1d1', 'd1e1'), ('e8d8', 'd8e8')),
+        ('4k2r/6pp/8/8/8/8/PP6/R3K3 w - - 0 1', ('a1c1', 'c1a1'), ('h8f8', 'f8h8'), ('e1d2', 'd2e1'), ('e8d7', 'd7e8')),
+    ]
+    out = []
+    ns = [25, 26, 33, 60] if ctx.quick else [25, 26, 27, 33, 47, 60]
+    for i, n in enumerate(ns):
+        base, X, Y, W, B = templates[i % len(templates)]
+        moves = [X[0], Y[0]] + [W[0], B[0], W[1], B[1]] * n + [X[1]]
+        out.append((base, moves))
+    return out
+
+
 def check_C07(ctx):
     cache, abs_cache = {}, {}
     games = [tuple(l.split(' ; ')) for l in load_regressions('C07')]
-    games = [(b, m.split()) for b, m in games] + shuffle_games(ctx, 36 if ctx.quick else 500)
+    games = [(b, m.split()) for b, m in games] + long_shuffle_games(ctx) + shuffle_games(ctx, 36 if ctx.quick else 500)
     for base, moves in games:
         spec = ctx.model.ask(f'oracle play {base} ; ' + ' '.join(moves))
         if any(f.startswith('!') for f in spec): continue
@@ -1633,6 +1680,15 @@ def check_C12(ctx):
             so = run_search(ctx, pos, opts)
             ctx.nontrivial.add((fen, opts))
             check_info_lines(ctx, f'search {pos} ; {opts}', fen, so)
+    # the half-move clock reaches 100 inside the tree (clock 95-99 at the root): nodes that go straight to the capture search
+    for i, (base, moves, fen, info) in enumerate(roots[: (24 if ctx.quick else 400)]):
+        f2 = with_halfmove(fen, 95 + i % 5)
+        d = 4 if sum(c.isalpha() for c in fen.split()[0]) <= 16 else 3
+        for opts in [f'depth={d}', f'depth={d + 1} tt=keep']:
+            so = run_search(ctx, 'fen ' + f2, opts)
+            ctx.count('clock-near-100-searches')
+            ctx.nontrivial.add((f2, opts))
+            check_info_lines(ctx, f'search fen {f2} ; {opts}', f2, so)
     # histories with shuffling, warm tables along a game (stale PV tails behind draws and TT cut-offs)
     for base, moves in shuffle_games(ctx, 16 if ctx.quick else 300):
         spec = ctx.model.ask(f'oracle play {base} ; ' + ' '.join(moves))
@@ -1751,6 +1807,23 @@ def check_C11(ctx):
                 if not m or not m.group(1).startswith('mate'): continue
                 N = int(m.group(1).split()[1])
                 if N != 0 and abs(N) <= max_mate_n(fen):
+                    o = ctx.model.ask(f'oracle mate {fen} ; {abs(N)}')
+                    ok = (o[0].endswith('1]') if N > 0 else o[1].endswith('1]')) if len(o) >= 2 else False
+                    if not ok:
+                        ctx.oracle_fail('mate-announcement-untrue', cmd, {'line': l, 'fen': fen, 'rules': o[:2]})
+    # deeper searches on the small endgames (mate scores travel through the table with different depths and plies)
+    deep = [f for f, k in mp.items() if k == 'mate-in-3' and sum(c.isalpha() for c in f.split()[0]) <= 5][: (10 if ctx.quick else 200)]
+    for fen in deep:
+        for d in (7, 8):
+            cmd = f'search fen {fen} ; depth={d}'
+            so = run_search(ctx, 'fen ' + fen, f'depth={d}', model=False)
+            ctx.count('deep-mate-searches')
+            check_info_lines(ctx, cmd, fen, so)
+            for l in so.infos:
+                m = INFO_RE.match(l)
+                if not m or not m.group(1).startswith('mate'): continue
+                N = int(m.group(1).split()[1])
+                if N != 0 and abs(N) <= 3:
                     o = ctx.model.ask(f'oracle mate {fen} ; {abs(N)}')
                     ok = (o[0].endswith('1]') if N > 0 else o[1].endswith('1]')) if len(o) >= 2 else False
                     if not ok:
